@@ -208,6 +208,15 @@ pub mod http {
                     old(self).rest@.len() > 0 ==> (r matches Some(kv) && kv.0.bytes@ == old(self).rest@[0].0 && kv.1.bytes@ == old(self).rest@[0].1) && final(self).rest@ == old(self).rest@.subrange(1, old(self).rest@.len() as int)
         { unimplemented!() }
     }
+    /// The append log with every entry of one name removed (what `HeaderMap::remove` leaves).
+    pub open spec fn without(s: Seq<(HeaderName, HV)>, k: HeaderName) -> Seq<(HeaderName, HV)>
+        decreases s.len()
+    {
+        if s.len() == 0 { s } else if s.last().0 == k { without(s.drop_last(), k) } else { without(s.drop_last(), k).push(s.last()) }
+    }
+    pub broadcast proof fn lemma_without_push(s: Seq<(HeaderName, HV)>, p: (HeaderName, HV), k: HeaderName)
+        ensures #[trigger] without(s.push(p), k) == (if p.0 == k { without(s, k) } else { without(s, k).push(p) })
+    { assert(s.push(p).drop_last() =~= s); }
     impl HeaderMap {
         pub fn new() -> (r: HeaderMap) ensures !r.entity_hdrs@, r.m@ == Map::<HeaderName, HeaderValue>::empty(), r.appended@.len() == 0, r.entries@.len() == 0, r.inserted@ == Map::<HeaderName, HV>::empty() { HeaderMap { m: Ghost(Map::empty()), entity_hdrs: Ghost(false), appended: Ghost(Seq::empty()), entries: Ghost(Seq::empty()), inserted: Ghost(Map::empty()) } }
         #[verifier::external_body]
@@ -227,6 +236,13 @@ pub mod http {
         #[verifier::external_body]
         pub fn append(&mut self, k: HeaderName, v: HeaderValue) -> (r: bool)
             ensures final(self).appended@ == old(self).appended@.push((k, v.v@)), final(self).m == old(self).m, final(self).entity_hdrs == old(self).entity_hdrs
+        { unimplemented!() }
+        /// `remove` drops every value stored under the name (assumed `http` contract, stated on all ghost views).
+        #[verifier::external_body]
+        pub fn remove(&mut self, k: HeaderName) -> (r: Option<HeaderValue>)
+            ensures final(self).appended@ == without(old(self).appended@, k), final(self).inserted@ == old(self).inserted@.remove(k),
+                    final(self).m@ == old(self).m@.remove(k), final(self).entity_hdrs == old(self).entity_hdrs,
+                    r.is_some() == old(self).m@.dom().contains(k)
         { unimplemented!() }
         pub open spec fn req_wf(&self) -> bool { forall|k: HeaderName| self.m@.dom().contains(k) ==> (#[trigger] self.m@[k]).wf() }
     }
